@@ -15,16 +15,38 @@ PROPERTY_FILE = 'Properties/C09.v'
 THEOREMS = [
     'C09_truth_table_gate_types', 'C09_every_generator_only_extends', 'C09_extension_meaning',
     'C09_gate_from_tt_step',
-    'C09_sub_exact', 'C09_sub_with_compare_exact', 'C09_equal_exact',
+    'C09_sub_exact', 'C09_sub_with_compare_exact', 'C09_div_mod_exact', 'C09_sqrt_exact',
+    'C09_sum_two_numbers_exact', 'C09_equal_exact',
     'C09_plus_one_exact', 'C09_if_then_else_exact', 'C09_pairwise_if_then_else_exact',
     'C09_pairwise_xor_exact',
+    'C09_generate_sub_two_numbers', 'C09_generate_div_mod', 'C09_generate_sqrt', 'C09_generate_equal',
+    'C09_generate_plus_one', 'C09_generate_if_then_else', 'C09_generate_pairwise_if_then_else',
+    'C09_generate_pairwise_xor',
 ]
 PARTIAL = {}
-LEVEL_TEXT = ''
-LEVEL_NOTE = ''
-TECHNIQUE = ''
-TRUSTED = []
-ASSUMPTIONS = []
+LEVEL_TEXT = ('every generator of the property (subtraction, subtract-with-compare, div-mod incl. b = 0, sqrt, '
+              'equality with a constant, plus-one, if-then-else, pairwise xor / if-then-else, and the eight '
+              'generate_* wrappers) is proved exact for ALL operand widths, both endiannesses, every host circuit, '
+              'every choice of operand gates and every add_outputs / result_labels option, by ripple / loop '
+              'invariants over the builder model; "only fresh gates, old gates keep their function, inputs '
+              'unchanged, outputs appended only when asked" is proved once for every builder program; the model '
+              'is tied to /repo by regenerating binary_tt_to_type and the straight-line cells (translator T4) and '
+              'by netlist-equality correspondence on every run')
+LEVEL_NOTE = ('Coq kernel + vm_compute; translators T1, T4; correspondence harness (label renaming by creation index); '
+              'theorems are conditional on the model run returning Ok (errors and an exhausted fresh-label retry '
+              'loop are excluded by the statement); add_equal is stated for at least one input bit; the model is of '
+              'the repaired code (fixes/D8, D9, D10)')
+TECHNIQUE = ('Coq proof: generators as programs of a deep-embedded builder monad over the Circuit model; one generic '
+             'extension theorem by induction on programs + a step lemma per added gate; value theorems by induction '
+             'on operand lists with borrow/carry invariants, restoring-division and digit-by-digit square-root '
+             'invariants (lia/nia); regenerated truth-table dictionary and cells; netlist-equality correspondence '
+             'under vm_compute; direct oracle through Circuit.evaluate_full_circuit')
+TRUSTED = ['uuid4 is modelled as a counter with a naming function that is universally quantified in every theorem; '
+           'freshness of each new label is established by the modelled has_gate retry loop, not assumed',
+           'the oracle treats caller-chosen result labels of the uuid shape new_<32 hex> as outside the property '
+           '(they can clash with labels generated later)']
+ASSUMPTIONS = ['the spelling of the input / result labels built by the generate_* wrappers is supplied by the harness '
+               '(it does not matter for the property)']
 
 
 def _oracle_worker(blob):
